@@ -8,27 +8,48 @@ Driver for C09 / C10-B.  Grammar: see harness/src/bin/c09.rs.
   drv_c09 oracle : case | obs ↦ `ok <tags>` / `fail <clause>`   clauses: goal-false-after (i),
                                 not-reachable (ii), not-restored / leaked-frames (iii), incomplete (iv),
                                 incomplete-interference (iv-b)
+  drv_c09 oracle3: the same with clause (iii) evaluated FIRST (C10 part B: a fact left behind by a failed
+                                proof is usually not forward-reachable either, and must be reported as (iii))
 -/
 open Proto C09
 
-def fieldNames : List String := ["A", "B", "C", "D", "E", "G", "X", "Y", "U.P", "U.Q"]
-def nFields : Nat := 10
+def fieldNames : List String := ["A", "B", "C", "D", "E", "G", "X", "Y", "U.P", "U.Q", "E._return"]
+def nFields : Nat := 11
+/-- the key `<object>._return` that a value-returning `MethodCall` writes: only `E` (field 4) has one in the universe -/
+def returnField (f : Nat) : Option Nat := if f = 4 then some 10 else none
 def fieldName (i : Nat) : String := (fieldNames[i]?).getD "?"
 
 /-- `_` in a string word of the case text stands for a blank (`sa_b` = "a b"; `s` = the empty string) -/
 def unBlank (s : String) : String := s.map fun c => if c = '_' then ' ' else c
 def reBlank (s : String) : String := s.map fun c => if c = ' ' then '_' else c
 
-def parseVal (s : String) : Option Val :=
+def parseElem (s : String) : Option Elem :=
   if s = "t" then some (.bool true) else if s = "f" then some (.bool false)
   else if s.startsWith "n" then (s.drop 1).toString.toInt?.map .num
   else if s.startsWith "i" then (s.drop 1).toString.toInt?.map .int
   else if s.startsWith "s" then some (.str (unBlank (s.drop 1).toString))
   else none
 
+def showElem : Elem → String
+  | .bool true => "t" | .bool false => "f"
+  | .num n => s!"n{n}" | .int n => s!"i{n}" | .str s => "s" ++ reBlank s
+
+/-- `a` = the empty array, `a<e>^<e>…` = an array of scalars; `o<n>` = `Object {"Speed": Number n}` -/
+def parseVal (s : String) : Option Val :=
+  if s = "t" then some (.bool true) else if s = "f" then some (.bool false)
+  else if s.startsWith "n" then (s.drop 1).toString.toInt?.map .num
+  else if s.startsWith "i" then (s.drop 1).toString.toInt?.map .int
+  else if s.startsWith "s" then some (.str (unBlank (s.drop 1).toString))
+  else if s = "a" then some (.arr [])
+  else if s.startsWith "a" then ((s.drop 1).toString.splitOn "^").mapM parseElem |>.map .arr
+  else if s.startsWith "o" then (s.drop 1).toString.toInt?.map .obj
+  else none
+
 def showVal : Val → String
   | .bool true => "t" | .bool false => "f"
   | .num n => s!"n{n}" | .int n => s!"i{n}" | .str s => "s" ++ reBlank s
+  | .arr l => "a" ++ "^".intercalate (l.map showElem)
+  | .obj n => s!"o{n}"
 
 def parseField (s : String) : Option Nat :=
   if s.startsWith "F" then (s.drop 1).toString.toNat?.bind fun i => if i < nFields then some i else none else none
@@ -55,6 +76,28 @@ def parseCondToks : Nat → List String → Option (Cond × List String)
       let a ← parseAtom t
       pure (.atom a, rest)
 
+/-- action := `F<i>:=<val>` Set | `F<i><<<scalar>` Append | `F<i>!` Retract | `F<i>$<int>` MethodCall setSpeed
+| `F4$g` MethodCall getSpeed -/
+def parseAct (s : String) : Option Act :=
+  match s.splitOn ":=" with
+  | [f, v] => do pure (.set (← parseField f) (← parseVal v))
+  | _ =>
+    match s.splitOn "<<" with
+    | [f, e] => do pure (.append (← parseField f) (← parseElem e))
+    | _ =>
+      match s.splitOn "$" with
+      | [f, n] =>
+        if n = "g" then do
+          let o ← parseField f
+          pure (.get o (← returnField o))
+        else do pure (.call (← parseField f) (← n.toInt?))
+      | _ => if s.endsWith "!" then (parseField (s.dropEnd 1).toString).map .retract else none
+
+/-- the leading `Set` actions of an action list, and the rest of it -/
+def splitActs : List Act → List (Nat × Val) × List Act
+  | .set f v :: rest => let r := splitActs rest; ((f, v) :: r.1, r.2)
+  | l => ([], l)
+
 def parseRule (s : String) : Option Rule :=
   match s.splitOn "~" with
   | [c, a] => do
@@ -62,11 +105,9 @@ def parseRule (s : String) : Option Rule :=
     let (cond, rest) ← parseCondToks (toks.length + 1) toks
     if !rest.isEmpty then none
     else
-      let acts ← (a.splitOn "+").mapM fun asg =>
-        match asg.splitOn ":=" with
-        | [f, v] => do pure ((← parseField f), (← parseVal v))
-        | _ => none
-      pure ⟨cond, acts⟩
+      let all ← (a.splitOn "+").mapM parseAct
+      let (acts, more) := splitActs all
+      pure ⟨cond, acts, more⟩
   | _ => none
 
 def insertFact (e : Nat × Val) : Facts → Facts
@@ -123,43 +164,63 @@ def contains (s pat : String) : Bool := isInfix pat.toList s.toList
 def cmpStr : Cmp → String
   | .eq => "==" | .ne => "!=" | .gt => ">" | .lt => "<" | .ge => ">=" | .le => "<="
 
-/-- `condition_to_goal_pattern` -/
+/-- `condition_to_goal_pattern` (condition literals are scalars in the tie) -/
 def patternOf (a : Atom) : String :=
   let v := match a.val with
     | .bool b => if b then "true" else "false"
     | .num n => toString n
     | .int n => toString n
     | .str s => "\"" ++ s ++ "\""
+    | .arr _ => "?"
+    | .obj _ => "?"
   s!"{fieldName a.field} {cmpStr a.op} {v}"
 
-/-- `rule_could_prove_pattern` over `kb.get_rules()` (insertion order: equal salience) -/
+/-- fields of the rule's `Set` actions (anywhere in its action list) -/
+def setFields (r : Rule) : List Nat :=
+  r.acts.map (·.1) ++ r.more.filterMap fun | .set f _ => some f | _ => none
+/-- objects of its `MethodCall` actions (the method names `setSpeed` / `getSpeed` occur in no pattern of the tie) -/
+def callFields (r : Rule) : List Nat := r.more.filterMap fun | .call f _ => some f | .get f _ => some f | _ => none
+def callNames (r : Rule) : List String :=
+  r.more.flatMap fun
+    | .call f _ => [fieldName f ++ ".setSpeed", fieldName f]
+    | .get f _ => [fieldName f ++ ".getSpeed", fieldName f]
+    | _ => []
+def retractFields (r : Rule) : List Nat := r.more.filterMap fun | .retract f => some f | _ => none
+
+/-- `rule_could_prove_pattern` over `kb.get_rules()` (insertion order: equal salience): a `Set` whose
+field, or a `MethodCall` whose object, occurs in the pattern text (`Append` / `Retract` do not count) -/
 def subCandsOf (kb : List Rule) (a : Atom) : List Nat :=
   let pat := patternOf a
   (List.range kb.length).filter fun i =>
     match kb[i]? with
-    | some r => r.acts.any fun e => contains pat (fieldName e.1)
+    | some r => (setFields r ++ callFields r).any fun f => contains pat (fieldName f)
     | none => false
+
+/-- `ConclusionIndex::extract_conclusions`: `Set` field; `MethodCall` `object.method` and `object`;
+`Retract` object (`Append` is not indexed) -/
+def conclusions (r : Rule) : List String :=
+  (setFields r).map fieldName ++ callNames r ++ (retractFields r).map fieldName
 
 /-- `ConclusionIndex::find_candidates` (as a set; the order is the HashSet's) with the linear
 fallback of `find_candidate_rules` -/
 def topCandSet (kb : List Rule) (goal : Atom) : List Nat :=
   let fname := fieldName goal.field
   let idx := List.range kb.length
-  let direct := idx.filter fun i => match kb[i]? with | some r => r.acts.any (·.1 == goal.field) | none => false
+  let direct := idx.filter fun i => match kb[i]? with | some r => (conclusions r).any (· == fname) | none => false
   let viaObject :=
     match (fname.splitOn ".").dropLast with
     | [] => []
     | parts =>
       let object := ".".intercalate parts
       idx.filter fun i => match (kb[i]? : Option Rule) with
-        | some r => r.acts.any fun e => (fieldName e.1).startsWith object
+        | some r => (conclusions r).any fun c => c.startsWith object
         | none => false
   let cands := idx.filter fun i => direct.contains i || viaObject.contains i
   if !cands.isEmpty then cands
   else
     let pat := patternOf goal
     idx.filter fun i => match kb[i]? with
-      | some r => contains pat s!"R{i}" || r.acts.any fun e => contains pat (fieldName e.1)
+      | some r => contains pat s!"R{i}" || (setFields r ++ callFields r).any fun f => contains pat (fieldName f)
       | none => false
 
 def perms : List Nat → List (List Nat)
@@ -198,7 +259,14 @@ def modelLine (line : String) : String :=
 def hasIntLiteral (kb : List Rule) : Bool :=
   kb.any fun r => (condAtoms r.cond).any fun a => match a.val with | .int _ => true | _ => false
 
-def oracleLine (line : String) : String :=
+def actTags (kb : List Rule) : List String :=
+  let all := kb.flatMap (·.more)
+  (if all.any (fun | .append _ _ => true | _ => false) then ["act_append"] else [])
+  ++ (if all.any (fun | .retract _ => true | _ => false) then ["act_retract"] else [])
+  ++ (if all.any (fun | .call _ _ => true | .get _ _ => true | _ => false) then ["act_call"] else [])
+  ++ (if kb.any (fun r => r.acts.length + r.more.length > 1) then ["multi_action_rule"] else [])
+
+def oracleLine (iiiFirst : Bool) (line : String) : String :=
   match line.splitOn " | " with
   | [cs, o] =>
     if o.trimAscii.toString.startsWith "panic" then "fail query-panic" else
@@ -211,7 +279,9 @@ def oracleLine (line : String) : String :=
           let provable := p = "1"
           let before := c.facts
           let reach := inReach nFields c.kb before after
-          if provable && !goalHolds c.goal after then
+          if iiiFirst && depth != 0 then "fail leaked-frames"
+          else if iiiFirst && !restored before after depth provable then "fail not-restored"
+          else if provable && !goalHolds c.goal after then
             s!"fail goal-false-after ms{if c.maxSol > 1 then "N" else "1"} {if before == after then "rolled-back" else "changed"}"
           else if reach == some false then "fail not-reachable"
           else if depth != 0 then "fail leaked-frames"
@@ -236,6 +306,7 @@ def oracleLine (line : String) : String :=
               ++ (if before != after then ["derived_facts"] else [])
               ++ (if rsz > 1 then ["rules_fireable"] else [])
               ++ (if c.kb.any (fun r => !isConj r.cond) then ["or_or_nonEq"] else [])
+              ++ actTags c.kb
               ++ (if (provable && before != after) || (!provable && rsz > 1) then ["nontrivial"] else [])
             joinSp ("ok" :: tags)
       | _, _, _ => "bad-input"
@@ -245,5 +316,6 @@ def oracleLine (line : String) : String :=
 def main (args : List String) : IO Unit :=
   match args with
   | ["model"] => mapLines modelLine
-  | ["oracle"] => mapLines oracleLine
-  | _ => IO.eprintln "usage: drv_c09 model|oracle"
+  | ["oracle"] => mapLines (oracleLine false)
+  | ["oracle3"] => mapLines (oracleLine true)
+  | _ => IO.eprintln "usage: drv_c09 model|oracle|oracle3"
